@@ -1416,6 +1416,10 @@ func Hydro(horizon int, g *GlobalVarsMain, local *InputSharedVars, hPath *HFileP
 	g.FELDW[horizonIndex] = local.FK[horizonIndex] + KRR/100
 	g.NORMFK[horizonIndex] = local.FK[horizonIndex]
 	g.PRGES[horizonIndex] = g.PRGES[horizonIndex] + KRG/100
+	// the two corrections are chosen independently: field capacity cannot exceed pore volume
+	if g.FELDW[horizonIndex] > g.PRGES[horizonIndex] {
+		g.FELDW[horizonIndex] = g.PRGES[horizonIndex]
+	}
 
 	if g.IZM/g.DZ.Index > g.N {
 		g.IZM = g.N * g.DZ.Index
